@@ -31,7 +31,7 @@ Definition dump_ok (s : ipam) (d : odump) : bool :=
   forallb (pool_attrs_ok s) (od_pool d).
 
 (** one observed step: the operation (with oracles), the observed result class and IPs, the dump *)
-Definition ostep := (op * ares * list N * odump)%type.
+Definition ostep := (op * ares * list N * option odump)%type.   (* no dump between two operations that overlapped *)
 
 (** replay; [Some n] = index of the first step on which model and implementation differ *)
 Fixpoint replay (s : ipam) (i : N) (h : list ostep) : option N :=
@@ -39,7 +39,8 @@ Fixpoint replay (s : ipam) (i : N) (h : list ostep) : option N :=
   | [] => None
   | (o, r, ips, d) :: rest =>
       let '(s', r', ips') := step s o in
-      if bool_decide (r' = r) && list_eqb N.eqb ips' ips && dump_ok s' d then replay s' (i + 1) rest
+      if bool_decide (r' = r) && list_eqb N.eqb ips' ips && match d with Some d => dump_ok s' d | None => true end
+      then replay s' (i + 1) rest
       else Some i
   end.
 Definition chk_hist (h : list ostep) : bool := match replay ipam0 0 h with None => true | Some _ => false end.
@@ -55,3 +56,52 @@ Definition dump_agree (confd : N -> bool) (pending : list N) (d : odump) : bool 
   forallb (fun kv => bool_decide (fst kv ∈ pending) || bool_decide (st !! fst kv = Some (snd kv))) (od_alloc d) &&
   forallb (fun kv => bool_decide (fst kv ∈ pending) || negb (confd (fst kv)) || bool_decide (al !! fst kv = Some (snd kv)))
           (od_store d).
+
+(** * monitors over the implementation's own dumps (no model state involved) *)
+Definition pools_of (conf : list json) : list pool := match decode_pools conf with Some ps => ps | None => [] end.
+
+(** C05: after every completed operation *)
+Definition mon_agree (conf : list json) (pending : list N) (d : odump) : bool :=
+  dump_agree (configured (pools_of conf)) pending d.
+
+Definition oent_eqb (a b : oent) : bool := bool_decide (a = b).
+Definition same_tables (d1 d2 : odump) : bool :=
+  list_eqb (pair_eqb N.eqb oent_eqb) (od_alloc d1) (od_alloc d2) && list_eqb N.eqb (od_unalloc d1) (od_unalloc d2).
+Definition same_dump (d1 d2 : odump) : bool :=
+  same_tables d1 d2 && list_eqb (pair_eqb N.eqb oent_eqb) (od_store d1) (od_store d2).
+
+(** C08: one multi-IP request (k range lists) seen from outside *)
+Definition in_ranges (rs : list range) (x : N) : bool := existsb (fun r => range_contains r x) rs.
+Fixpoint each_in (ips : list N) (rss : list (list range)) : bool :=
+  match ips, rss with
+  | [], [] => true
+  | x :: ips', rs :: rss' => in_ranges rs x && each_in ips' rss'
+  | _, _ => false
+  end.
+Fixpoint nodupb (l : list N) : bool :=
+  match l with [] => true | x :: r => negb (existsb (N.eqb x) r) && nodupb r end.
+Definition mon_ranges (before after : odump) (key : str) (sn : subnet) (rss : list (list range)) (ok : bool) (ips : list N) : bool :=
+  if ok then
+    each_in ips rss && nodupb ips &&
+    forallb (fun x => existsb (N.eqb x) (od_unalloc before)) ips &&                                (* were free *)
+    forallb (fun x => match List.find (fun kv => fst kv =? x) (od_pool after) with
+                      | Some (_, (_, _, _, sns)) => sn_in sns sn | None => false end) ips &&      (* routable from the node's subnet *)
+    forallb (fun x => match List.find (fun kv => fst kv =? x) (od_alloc after) with
+                      | Some (_, (k, _, _, _, _)) => str_eqb k key | None => false end) ips &&     (* now owned by the key *)
+    forallb (fun kv => existsb (N.eqb (fst kv)) ips || existsb (fun kv' => pair_eqb N.eqb oent_eqb kv kv') (od_alloc before))
+            (od_alloc after) &&                                                                    (* nothing else appeared *)
+    forallb (fun kv => existsb (fun kv' => pair_eqb N.eqb oent_eqb kv kv') (od_alloc after)) (od_alloc before) &&
+    (List.length (od_alloc after) =? List.length (od_alloc before) + List.length ips)%nat
+  else same_dump before after.                                                                     (* all or nothing *)
+
+(** C09 *)
+Definition mon_fresh (conf : list json) (before : odump) (ips : list N) : bool :=
+  forallb (fun x => negb (existsb (fun kv => fst kv =? x) (od_store before)) && configured (pools_of conf) x) ips.
+Definition mon_reload (newconf : list json) (delfail : list N) (before after : odump) : bool :=
+  let confd := configured (pools_of newconf) in
+  (* kept: every persisted allocation whose IP the new configuration contains; dropped: exactly the others *)
+  list_eqb (pair_eqb N.eqb oent_eqb) (od_alloc after) (List.filter (fun kv => confd (fst kv)) (od_store before)) &&
+  list_eqb (pair_eqb N.eqb oent_eqb) (od_store after)
+           (List.filter (fun kv => confd (fst kv) || existsb (N.eqb (fst kv)) delfail) (od_store before)) &&
+  forallb confd (od_unalloc after) &&
+  forallb (fun x => negb (existsb (fun kv => fst kv =? x) (od_alloc after))) (od_unalloc after).
